@@ -483,6 +483,9 @@ def process_validation(ctx, progs, by_prog, vrecs, pipe_cases, pouts, tinfo, tou
             pstat["types-rejected"] += 1     # unsound inferred types are C05's subject
         elif not bl[1]:
             pstat["system-rejected"] += 1
+            rej = ctx.coverage.setdefault("pipeline_rejected_samples", [])
+            if len(rej) < 8:
+                rej.append({"program": lab["program"], "setting": lab["setting"], "goal": lab["goal"], "monomials": lab["mons"]})
         else:
             pstat["init-rejected"] += 1
     ctx.coverage["closed_form_validator_status"] = stat
